@@ -142,11 +142,6 @@ func c14Prepare(e *env, b *c14Bundle) []*c14Unit {
 				e.res.Fail(hx.Violation{Kind: "mismatch", What: "the model does not generate (" + strings.Join(raw, " ") + "), soyjs.Write does", Case: cs, Observed: c14Trunc(real)}, "")
 			default:
 				rn := real
-				if c.es6 {
-					// the import block is written in Go map order: compared as a set of lines
-					rn = sortImports(real)
-					mtext = sortImports(mtext)
-				}
 				if rn != mtext {
 					i := firstDiff(rn, mtext)
 					e.res.Fail(hx.Violation{Kind: "mismatch", What: "generated JavaScript differs from the model's text", Case: cs,
